@@ -331,7 +331,7 @@ func TestC09Wire(t *testing.T) {
 		nextSlot := uint32(5)
 		expectTick := func(what string) {
 			want := refm.process(rows, m, d, true)
-			if !c.VerifStep("tick") {
+			if !world.Step(c, "tick") {
 				t.Fatalf("C09: reporting loop did not take the granted tick (panics %+v); history %v", client.VerifPanics(), hist)
 			}
 			if ps := client.VerifPanics(); len(ps) > 0 {
@@ -524,7 +524,7 @@ func TestC09KnownFinding(t *testing.T) {
 	defer world.StopAllLeakedClients()
 	defer func() { world.CloseClient(c) }()
 	world.WriteEnergy(dir, fmt.Sprintf("timestamp,energy (mWh)\n%d,1000\n%d,4294968296\n", g+300*9, g+300*9+1))
-	if !c.VerifStep("tick") {
+	if !world.Step(c, "tick") {
 		t.Fatal("no tick")
 	}
 	sink.WaitCount(2, 1e9)
